@@ -165,6 +165,10 @@ def make_harness(model: SrcModel, chooser, env, order: str):
         text = args[0] if args else kwargs.get("expression")
         if not isinstance(text, str):
             raise Unsupported(f"resolver called with {text!r}")
+        rp = kwargs.get("resolve_packages", args[1] if len(args) > 1 else False)
+        rt = kwargs.get("replace_time_conditions", args[2] if len(args) > 2 else True)
+        if rp is not True or rt is not True:
+            it.effects.append(("resolver-flags", f"resolve_packages={rp!r}, replace_time_conditions={rt!r} for {text!r}"))
         try:
             refsem.parse_ahb(text)
         except refsem.RefSyntaxError:
@@ -246,6 +250,9 @@ def run_validation(model: SrcModel, entry: str, node, env, order: str = "fwd", p
                 raise Unsupported(entry)
         except PyRaise as err:
             return ("raise", err.exc.cls)
+        flags = [e[1] for e in it.effects if e[0] == "resolver-flags"]
+        if flags:
+            return ("raise", f"validation parses an expression without resolving packages/time conditions: {flags[0]}")
         return ("ret", record(res), obj.fields.get("entered_input") if "entered_input" in obj.fields else None)
 
     outs = [o for _, o in explore(run)]
